@@ -58,7 +58,7 @@ REPO_ASSUME = [
 ]
 
 HOOK_ASSUME = [
-    "single goroutine; the concurrent variant is not part of this run",
+    "hook family: single goroutine; hookconc: three client goroutines, one running at a time except where the code itself blocks",
     "the scheduler's reaction to a fire is modelled as one step: receive from the channel, GetNext, MarkAsDispatched(head)",
     "time.Timer behaves like the three-field virtual clock (now, armed deadline, capacity-1 channel)",
 ]
@@ -119,19 +119,26 @@ CHECKS = {
         "runs": lambda tier: [pure_run(tier)] + {
             "quick": [{"args": ["hook", "-n", "40000", "-len", "15"]},
                       {"args": ["hook", "-n", "20000", "-len", "15", "-faults"], "seed_off": 100},
-                      {"args": ["hook", "-exhaustive", "4"]}],
+                      {"args": ["hook", "-exhaustive", "4"]},
+                      {"args": ["hookconc", "-n", "300", "-len", "10"], "seed_off": 200}],
             "thorough": [{"args": ["hook", "-n", "1000000", "-len", "18"]},
                          {"args": ["hook", "-n", "300000", "-len", "18", "-faults"], "seed_off": 100},
-                         {"args": ["hook", "-exhaustive", "6"]}],
+                         {"args": ["hook", "-exhaustive", "6"]},
+                         {"args": ["hookconc", "-n", "6000", "-len", "14"], "seed_off": 200}],
             "widen": [{"args": ["hook", "-n", "300000", "-len", "15", "-faults"]},
-                      {"args": ["hook", "-exhaustive", "5"]}],
+                      {"args": ["hook", "-exhaustive", "5"]},
+                      {"args": ["hookconc", "-n", "2000", "-len", "12"], "seed_off": 300}],
         }[tier],
         "rule": "real repository.Repository + MutationHookTimer + in-memory repository with a virtual clock: random "
                 "histories of 6..len ops over 3 times x 3 priorities x <=4 tasks (sub-ms / non-UTC operands, GetNext "
                 "faults into re-arming) and every sequence 'start + depth ops' over a reduced 15-op alphabet; after "
                 "every op the virtual clock, NextScheduled, LastTimerUpdateError and the cached head are compared "
                 "with Gk.Obs and the never-late / stopped-silent / error-surfaces monitors run on the implementation's "
-                "own observables",
+                "own observables; `gkh hookconc` (the concurrent variant): three clients mutate through the observable repository "
+                "while the GetNext that a re-arm makes can be parked after the core answered, so that other clients' whole "
+                "mutations land between a re-arm's look-up and its Reset (on code that holds the hook lock across the look-up "
+                "they block until the parked call resumes); at quiescence the never-late monitor is evaluated on the "
+                "implementation's observables",
         "trusted_base": COMMON_TB,
         "assumptions": HOOK_ASSUME,
     },
